@@ -222,7 +222,8 @@ pub enum Wr {
     Vec(Vec<u8>),
     Cursor { buf: Vec<u8>, pos: u64 },
     Scripted(ScriptWr),
-    Fd { file: std::fs::File },
+    /// regular file; `bad` is a descriptor on which write(2) fails (EBADF); the script says which one each call uses (F = file, E = bad)
+    Fd { file: std::fs::File, bad: std::fs::File, script: VecDeque<Beh> },
 }
 
 impl WriteVolatile for Wr {
@@ -244,7 +245,10 @@ impl WriteVolatile for Wr {
                 r
             }
             Wr::Scripted(s) => s.write_volatile(v),
-            Wr::Fd { file } => file.write_volatile(v),
+            Wr::Fd { file, bad, script } => match script.pop_front().unwrap_or(Beh::Full) {
+                Beh::Fail => bad.write_volatile(v),
+                _ => file.write_volatile(v),
+            },
         }
     }
     fn write_all_volatile<B: BitmapSlice>(&mut self, v: &VolatileSlice<B>) -> Result<(), VolatileMemoryError> {
@@ -265,7 +269,16 @@ impl WriteVolatile for Wr {
                 r
             }
             Wr::Scripted(s) => s.write_all_volatile(v),
-            Wr::Fd { file } => file.write_all_volatile(v),
+            Wr::Fd { .. } => {
+                // the default loop of the trait, driven through our per-call dispatch
+                struct Via<'a>(&'a mut Wr);
+                impl WriteVolatile for Via<'_> {
+                    fn write_volatile<B: BitmapSlice>(&mut self, buf: &VolatileSlice<B>) -> Result<usize, VolatileMemoryError> {
+                        self.0.write_volatile(buf)
+                    }
+                }
+                Via(self).write_all_volatile(v)
+            }
         }
     }
 }
@@ -307,7 +320,7 @@ impl Wr {
             Wr::Vec(v) => (v.clone(), 0),
             Wr::Cursor { buf, pos } => (buf.clone(), *pos),
             Wr::Scripted(s) => (s.sink.clone(), 0),
-            Wr::Fd { file } => {
+            Wr::Fd { file, .. } => {
                 let mut v = Vec::new();
                 let p = file.stream_position().unwrap();
                 file.seek(SeekFrom::Start(0)).unwrap();
@@ -324,7 +337,7 @@ impl Wr {
             Wr::Vec(v) => v.len(),
             Wr::Cursor { buf, pos } => (*pos as usize).min(buf.len()),
             Wr::Scripted(s) => s.sink.len(),
-            Wr::Fd { file } => file.stream_position().unwrap() as usize,
+            Wr::Fd { file, .. } => file.stream_position().unwrap() as usize,
         }
     }
 }
@@ -389,7 +402,11 @@ impl Streams {
                     "mutslice" => Wr::MutSlice { buf: data, pos: 0 },
                     "vec" => Wr::Vec(data),
                     "cursor" => Wr::Cursor { buf: data, pos: kv.n("pos") },
-                    "fd" => Wr::Fd { file: tmpfile() },
+                    "fd" => {
+                        // a descriptor that cannot be written to: opened read-only
+                        let bad = std::fs::OpenOptions::new().read(true).open("/dev/null").unwrap();
+                        Wr::Fd { file: tmpfile(), bad, script: parse_script(kv.s("script")) }
+                    }
                     _ => Wr::Scripted(ScriptWr { sink: data, script: parse_script(kv.s("script")) }),
                 };
                 self.wrs.insert(id, w);
@@ -477,7 +494,7 @@ pub fn gen_stream_ops(rec: &mut Rec, rng: &mut Rng, exec: &mut dyn FnMut(&mut Re
         let kind = *rng.pick(&["mutslice", "vec", "cursor", "scripted", "scripted", "fd"]);
         let data = if kind == "vec" || kind == "scripted" { let k = rng.below(4) as usize; rng.bytes(k) } else if kind == "fd" { vec![] } else { rng.bytes(dlen) };
         let pos = if kind == "cursor" { if rng.chance(1, 5) { dlen as u64 + rng.below(4) } else { rng.below(dlen as u64 + 1) } } else { 0 };
-        let script = if kind == "scripted" { gen_script(rng, false) } else { String::new() };
+        let script = if kind == "scripted" || kind == "fd" { gen_script(rng, kind == "fd") } else { String::new() };
         exec(rec, format!("wr.new id=0 kind={} data={} pos={} script={}", kind, hex(&data), pos, script));
         format!("{}.{} {} wr=0 count={}", prefix, if exact { "wavt" } else { "wvt" }, target, count)
     }
